@@ -74,7 +74,12 @@ pub enum Op {
         cancellable: bool,
     },
     /// drop the `slot % held`-th held object (no-op when nothing is held)
-    Return { slot: u8 },
+    /// `unwinding`: the holder panics; the object is dropped while the stack unwinds
+    Return {
+        slot: u8,
+        #[serde(default)]
+        unwinding: bool,
+    },
     /// `detach_panics`: the manager's `detach()` panics for the object being taken (the caller
     /// contains the panic)
     Take {
@@ -90,6 +95,8 @@ pub enum Op {
     Status,
     /// drop this actor's pool handle; later pool operations of the actor are skipped
     DropHandle,
+    /// build, use, shrink / retain and close an unrelated second pool (with its own manager)
+    Sibling { kind: u8 },
     Nop,
 }
 
@@ -168,6 +175,7 @@ impl MScenario {
             .chain(&o.pre_recycle)
             .chain(&o.post_recycle)
             .any(|x| matches!(x.kind, OKind::Panic | OKind::PanicCall))
+            || self.actors.iter().any(|a| a.iter().any(|o| matches!(o, Op::Return { unwinding: true, .. })))
     }
     pub fn has_faults(&self) -> bool {
         let o = &self.outcomes;
